@@ -1,6 +1,7 @@
 package rules
 
 import (
+	"go/constant"
 	"fmt"
 	"go/token"
 	"go/types"
@@ -18,7 +19,7 @@ func init() {
 		ID:    "R-SMALL",
 		Doc:   "single-site obligations: thrift Reset recomputes protocol flags like the constructor; the seen-bit of a decoded field is set on every path that consumes it; keyset lookups are confirmed by a length comparison; HTML key fragments are always computed; slice growth is geometric; every callback parameter of the skippers is used; trailing-data tests dominate success returns; varint overflow constants; sort-before-delta; number-kind precedence; identities of base64/time/endianness callees",
 		Props: []string{"C01", "C02", "C03", "C04", "C07", "C08", "C12", "C13", "C14", "C16", "C19"},
-		Min:   map[string]int{"C01": 2, "C02": 3, "C03": 1, "C04": 4, "C07": 3, "C08": 4, "C12": 2, "C13": 3, "C14": 3, "C16": 1, "C19": 2},
+		Min:   map[string]int{"C01": 3, "C02": 3, "C03": 1, "C04": 4, "C07": 3, "C08": 4, "C12": 2, "C13": 3, "C14": 3, "C16": 1, "C19": 2},
 		Run:   runSmall,
 	})
 }
@@ -41,6 +42,7 @@ func runSmall(c *core.Ctx) []core.Obligation {
 	smallBitOrZeroMask(c, b)
 	smallRawVarintByte(c, b)
 	smallSkipCoalescedBool(c, b)
+	smallStringOptionNull(c, b)
 	return b.out
 }
 
@@ -970,4 +972,66 @@ func mentionsBoolTypes(fn *ssa.Function, t, f int64) bool {
 
 func thriftFeatureConst(c *core.Ctx, name string) (int64, bool) {
 	return thriftConst(c, name)
+}
+
+// S17 — json ",string" option: the literal null written for a nil pointer is not wrapped in a
+// string (encoding/json quotes the pointee's value only).
+func smallStringOptionNull(c *core.Ctx, b *ob) {
+	props := []string{"C01"}
+	key := "string-option:null-unquoted"
+	fn := c.Lookup("json.(encoder).encodeToString")
+	if fn == nil {
+		b.addP(props, core.Undecided, key, "-", "json.(encoder).encodeToString not found")
+		return
+	}
+	ok := false
+	for _, blk := range fn.Blocks {
+		for _, in := range blk.Instrs {
+			bo, isB := in.(*ssa.BinOp)
+			if !isB || bo.Op != token.EQL {
+				continue
+			}
+			isNull := func(v ssa.Value) bool {
+				k, isK := v.(*ssa.Const)
+				return isK && k.Value != nil && k.Value.Kind() == constant.String && constant.StringVal(k.Value) == "null"
+			}
+			if !isNull(bo.X) && !isNull(bo.Y) {
+				continue
+			}
+			// the true edge returns without calling encodeString
+			for _, ref := range *bo.Referrers() {
+				ifi, isIf := ref.(*ssa.If)
+				if !isIf {
+					continue
+				}
+				t := ifi.Block().Succs[0]
+				quoted := false
+				for _, ci := range callsIn2(t) {
+					if f := staticCallee(ci.Common()); f != nil && f.Name() == "encodeString" {
+						quoted = true
+					}
+				}
+				if len(t.Instrs) > 0 {
+					if _, isRet := t.Instrs[len(t.Instrs)-1].(*ssa.Return); isRet && !quoted {
+						ok = true
+					}
+				}
+			}
+		}
+	}
+	if ok {
+		b.addP(props, core.Discharged, key, c.FuncPos(fn), "the bare null of a nil pointer is returned unquoted")
+	} else {
+		b.addP(props, core.Violation, key, c.FuncPos(fn), "encodeToString wraps whatever the inner encoder produced, including the null of a nil pointer: P *int `json:\",string\"` = nil is written as \"null\" where encoding/json writes null")
+	}
+}
+
+func callsIn2(blk *ssa.BasicBlock) []ssa.CallInstruction {
+	var out []ssa.CallInstruction
+	for _, in := range blk.Instrs {
+		if ci, ok := in.(ssa.CallInstruction); ok {
+			out = append(out, ci)
+		}
+	}
+	return out
 }
